@@ -6,7 +6,7 @@ use crate::obs::{guarded, observe, Caught};
 use crate::plan::{Loss, RFault, Step, WFault};
 use crate::rng::Rng;
 use crate::view::{path_name, LinkKind, OnDisk, Origin, SavedState};
-use sodg::Sodg;
+use sodg::{Hex, Sodg};
 use std::path::Path;
 use std::rc::Rc;
 
@@ -24,7 +24,7 @@ impl<const N: usize> Exec<N> {
         if self.view.live().len() >= 2 {
             let target = match s {
                 Step::Add { i, .. } | Step::Bind { i, .. } | Step::Put { i, .. } | Step::PutRaw { i, .. } | Step::Data { i, .. } | Step::NextId { i, .. }
-                | Step::Drain { i, .. } | Step::Script { i, .. } | Step::Script2 { i, .. } | Step::Save { i, .. } | Step::Oob { i, .. } | Step::Storm { i, .. } => *i + 1,
+                | Step::Drain { i, .. } | Step::Script { i, .. } | Step::Script2 { i, .. } | Step::Save { i, .. } | Step::Oob { i, .. } | Step::Storm { i, .. } | Step::Repeat { i, .. } => *i + 1,
                 Step::Clone { src, .. } | Step::Slice { src, .. } => *src + 1,
                 Step::Merge { dst, .. } => *dst + 1,
                 _ => 0,
@@ -241,6 +241,69 @@ impl<const N: usize> Exec<N> {
                 let keep = self.view.cfg.sweep_every;
                 self.view.cfg.sweep_every = 1;
                 let r = self.op_with_followers(*i, &Op::Bind(v, last, a.clone()));
+                self.view.cfg.sweep_every = keep;
+                r?;
+                self.hash_step(s, "");
+                Ok(Applied::Done)
+            }
+            Step::Repeat { i, kind, v, times } => {
+                let Some(v) = self.id(*v) else { return Ok(Applied::Skipped) };
+                if !self.targetable(*i) || *times < 2 || *times > 5_000 {
+                    return Ok(Applied::Skipped);
+                }
+                let inst = self.view.insts[*i].as_ref().unwrap();
+                if inst.poisoned || !inst.m.is_present(v) {
+                    return Ok(Applied::Skipped);
+                }
+                let read_already = inst.m.present[&v].data.is_some() && !inst.m.present[&v].unread;
+                if *kind == 1 && !read_already {
+                    return Ok(Applied::Skipped);
+                }
+                let mut insts = vec![*i];
+                insts.extend(self.view.followers(*i).into_iter().map(|(f, _)| f));
+                let ctr = self.view.put_counter;
+                for inst in &insts {
+                    let g = self.gs[*inst].as_mut().unwrap();
+                    let r = guarded(|| {
+                        for k in 0..(*times - 1) {
+                            match kind {
+                                0 => {
+                                    let mut d = (ctr + k as u64).to_le_bytes().to_vec();
+                                    d.push(0xC3);
+                                    g.put(v, &Hex::from_vec(d));
+                                }
+                                1 => drop(g.data(v)),
+                                2 => g.add(v),
+                                3 => drop(g.clone()),
+                                _ => drop(g.save(Path::new("/sim/repeat-scratch.sodg"))),
+                            }
+                        }
+                    });
+                    let _ = self.disk.borrow_mut().files.remove("/sim/repeat-scratch.sodg");
+                    if let Err(c) = r {
+                        return fail("panic.in-contract-call", clauses::PANIC_GC, format!("{times} calls of kind {kind} on ν{v} in a row panicked: {c:?}"));
+                    }
+                }
+                self.stats.bump(&format!("probe.repeat_storm_kind{kind}"));
+                self.stats.add("storm.raw_repeats", (*times - 1) as u64);
+                // the closing call of the same kind is judged in full
+                let keep = self.view.cfg.sweep_every;
+                self.view.cfg.sweep_every = 1;
+                let r = match kind {
+                    0 => {
+                        self.view.put_counter += *times as u64;
+                        let mut d = (ctr + *times as u64).to_le_bytes().to_vec();
+                        d.push(0xC4);
+                        // the raw puts made the datum unread again, as the model's one put does
+                        self.op_with_followers(*i, &Op::Put(v, d)).map(|_| ())
+                    }
+                    1 => self.op_with_followers(*i, &Op::Data(v)).map(|_| ()),
+                    2 => self.op_with_followers(*i, &Op::Add(v)).map(|_| ()),
+                    _ => {
+                        // nothing may have changed: an add() of the present vertex closes the storm
+                        self.op_with_followers(*i, &Op::Add(v)).map(|_| ())
+                    }
+                };
                 self.view.cfg.sweep_every = keep;
                 r?;
                 self.hash_step(s, "");
